@@ -325,6 +325,42 @@ def _parse_constants():
     return out, seg, (bech32m.Encoding.BECH32, bech32m.Encoding.BECH32M)
 
 
+def _cache_keys():
+    """keys of parseable_str.cache in use: string constants of the `ps.cache("<key>", ...)` calls of parseable_str.py;
+    no other module under pycoin/networks may call .cache (a new key is new parser state the model does not have),
+    and ParseAPI.address must be the plain or-chain over the five parsers"""
+    keys = []
+    for node in ast.walk(_tree("pycoin/networks/parseable_str.py")):
+        if isinstance(node, ast.Call) and isinstance(node.func, ast.Attribute) and node.func.attr == "cache":
+            if not (node.args and isinstance(node.args[0], ast.Constant) and isinstance(node.args[0].value, str)):
+                raise GenError("parseable_str.py: cache key is not a string literal")
+            keys.append(node.args[0].value)
+    if keys != ["b58", "b58_double_sha256", "bech32", "colon_prefix"]:
+        raise GenError("parseable_str.py: cache keys changed: %r" % keys)
+    netdir = os.path.join(REPO, "pycoin", "networks")
+    for fn in sorted(os.listdir(netdir)):
+        if fn.endswith(".py") and fn != "parseable_str.py":
+            for node in ast.walk(_tree("pycoin/networks/" + fn)):
+                if isinstance(node, ast.Attribute) and node.attr in ("cache", "_cache"):
+                    raise GenError("pycoin/networks/%s uses the parseable_str cache directly (line %d): state the model does not have"
+                                   % (fn, node.lineno))
+    fn = _method("pycoin/networks/ParseAPI.py", "ParseAPI", "address")
+    body = [st for st in fn.body if not (isinstance(st, ast.Expr) and isinstance(st.value, ast.Constant))]
+    want = ["ps = parseable_str(s)",
+            "return self.p2pkh(ps) or self.p2sh(ps) or self.p2pkh_segwit(ps) or self.p2sh_segwit(ps) or self.p2tr(ps)"]
+    got = [re.sub(r"\s+", " ", ast.unparse(st)) for st in body]
+    if got != want:
+        raise GenError("ParseAPI.address: body changed: %r" % got)
+    # parseable_str.cache itself: stored value if the key is present, else f(self) with exceptions turned into None
+    cf = _method("pycoin/networks/parseable_str.py", "parseable_str", "cache")
+    want_cache = ("if key not in self._cache: self._cache[key] = None try: self._cache[key] = f(self) except Exception: pass "
+                  "return self._cache[key]")
+    got_cache = re.sub(r"\s+", " ", " ".join(ast.unparse(st) for st in cf.body))
+    if got_cache != want_cache:
+        raise GenError("parseable_str.cache: body changed: %r" % got_cache)
+    return keys
+
+
 def _token_opcodes():
     from pycoin.coins.bitcoin.ScriptTools import BitcoinScriptTools as T
     hexs, ints = [], []
@@ -410,6 +446,8 @@ def gen_networks() -> str:
     out.append("Definition segwit_parsers : list (list byte * N * nat * list byte) :=\n  [ " + "; ".join(
         "(%s, %s, %d%%nat, %s)" % (coq_str(n), coq_N(v), ln, coq_str(attr)) for n, v, ln, attr in segp) + " ].\n")
     out.append("Definition enc_bech32 : N := %s.\nDefinition enc_bech32m : N := %s.\n\n" % (coq_N(enc32), coq_N(enc32m)))
+    out.append("(* keys of the parseable_str cache (parseable_str.py); nothing else under pycoin/networks touches the cache *)\n")
+    out.append("Definition parse_cache_keys : list (list byte) :=\n  [ " + "; ".join(coq_str(k) for k in _cache_keys()) + " ].\n\n")
     hexs, ints = _token_opcodes()
     out.append(_opcode_names())
     out.append("(* ScriptTools.compile: a token t with \"OP_\"+t.upper() an opcode name compiles to that opcode *)\n")
